@@ -556,6 +556,11 @@ func runLex(in *input, res *result) {
 			}
 			res.Counts["oracle_confirmed"]++
 			w.Template = tpl
+			if pipe == "V" && modelled && tr.LabV == tr.Lab && tr.Lab != "none" {
+				// same mechanism as in the plain pipeline (judged there); the backtick mapping plays no part
+				res.Counts["validate_same_mechanism_as_plain"]++
+				continue
+			}
 			sig := "lex:" + lab
 			if pipe == "V" {
 				sig = "lex-validate:" + lab
